@@ -74,6 +74,7 @@ type input struct {
 	Series   []Series     `json:"series"`
 	Backends []BackendCfg `json:"backends"`
 	Event    *Event       `json:"event,omitempty"`
+	Seq      []FlushIn    `json:"seq,omitempty"` // stream "sequence": consecutive flushes through one client
 }
 
 func f(b uint64) float64 { return math.Float64frombits(b) }
